@@ -5,6 +5,7 @@
 (* and item tables generated from the library files (C12_Items.tla) and from the log `fs` of *)
 (* the file operations the history performed on its scratch copy of the library:             *)
 (*   <<"create", new, copied, 0, imports>>   new file = alias of the CURRENT items of `copied` *)
+(*                                           (copied = "": a file without items)              *)
 (*   <<"remove", f, "", 0, <<>>>>                                                             *)
 (*   <<"ins", f, c, pos, <<>>>>              constant item c inserted in front of index pos (0-based) *)
 (*   <<"del", f, "", pos, <<>>>>             item at index pos deleted                         *)
@@ -26,23 +27,27 @@ RangeS(s) == { s[i] : i \in 1..Len(s) }
 NoLimit == <<"none", "none">>
 StartLimit == <<"start", "start">>
 \* ---------------------------------------------------------------- the library after a sequence of file operations
-NewItem(c) == <<"def.ax", c, TRUE, << <<1, c>> >> >>
+NewItem(c) == <<"def.ax", c, TRUE, << <<1, c>> >>, "new">>        \* (a fifth component marks the items the history inserted)
 Clamp(p, n) == IF p < 0 THEN 0 ELSE IF p > n THEN n ELSE p
 InsertAt(s, p, x) == LET q == Clamp(p, Len(s)) IN SubSeq(s, 1, q) \o <<x>> \o SubSeq(s, q + 1, Len(s))
 RemoveAt(s, p) == IF p < 0 \/ p >= Len(s) THEN s ELSE SubSeq(s, 1, p) \o SubSeq(s, p + 2, Len(s))
-\* ex: the file exists; kn: its item table is known (from the canonical process, through aliases)
-Lib0 == [n \in DOMAIN cItems |-> [ex |-> TRUE, kn |-> TRUE, items |-> cItems[n],
+\* ex: the file exists; kn: its item table is known (from the canonical process, through aliases); org: the library file its
+\* original items come from ("" = none); cut: an original item other than a theorem was deleted (later items may not parse)
+Lib0 == [n \in DOMAIN cItems |-> [ex |-> TRUE, kn |-> TRUE, org |-> n, cut |-> FALSE, items |-> cItems[n],
                                   imports |-> IF n \in DOMAIN cImports THEN cImports[n] ELSE <<>>]]
+Harmless(it) == Len(it) = 5 \/ it[1] \in {"thm", "thm.ax"}
 ApplyOp(L, o) ==
   LET k == o[1]
       f == o[2] IN
   IF k = "create" THEN
-       (f :> [ex |-> TRUE, kn |-> (o[3] \in DOMAIN L /\ L[o[3]].kn /\ L[o[3]].ex),
+       (f :> [ex |-> TRUE, kn |-> (o[3] = "" \/ (o[3] \in DOMAIN L /\ L[o[3]].kn /\ L[o[3]].ex)),
+              org |-> IF o[3] \in DOMAIN L THEN L[o[3]].org ELSE "", cut |-> IF o[3] \in DOMAIN L THEN L[o[3]].cut ELSE FALSE,
               items |-> IF o[3] \in DOMAIN L THEN L[o[3]].items ELSE <<>>, imports |-> o[5]]) @@ L
   ELSE IF f \notin DOMAIN L THEN L
   ELSE IF k = "remove" THEN [L EXCEPT ![f].ex = FALSE]
   ELSE IF k = "ins" THEN [L EXCEPT ![f].items = InsertAt(@, o[4], NewItem(o[3]))]
-  ELSE IF k = "del" THEN [L EXCEPT ![f].items = RemoveAt(@, o[4])]
+  ELSE IF k = "del" THEN [L EXCEPT ![f].items = RemoveAt(@, o[4]),
+                                   ![f].cut = @ \/ (o[4] >= 0 /\ o[4] < Len(L[f].items) /\ ~Harmless(L[f].items[o[4] + 1]))]
   ELSE IF k = "reimport" THEN [L EXCEPT ![f].imports = o[5]]
   ELSE L
 RECURSIVE FoldOps(_, _, _)
@@ -77,6 +82,17 @@ ExpectedNames(L, th, lim) ==
   cBase \cup UNION { AllNames(L, d) : d \in Below(L, th) } \cup ExtNames(L[th].items, OwnCount(L[th].items, lim))
 \* a created file is an alias: together with a file that declares the same names the result is not decided here
 Clash(L, th, fs) == \E c \in Created(fs) \cap Closure(L, th) : \E d \in Closure(L, th) \ {c} : AllNames(L, c) \cap AllNames(L, d) # {}
+\* The item tables say which items parse in the ORIGINAL context of their file.  They are used only when every file of the closure
+\* is parsed in a context that has all names of the original one and, beyond them, only constants the history inserted (an alias in
+\* place of the file it copies, a new theory among the imports); otherwise the event is not examined.
+CtxOps(fs) == \E k \in 1..Len(fs) : fs[k][1] \in {"create", "reimport", "del", "remove"}
+FreshNames(fs) == { <<1, fs[k][3]>> : k \in { j \in 1..Len(fs) : fs[j][1] = "ins" } }
+Ctx0(o) == UNION { ExtNames(cItems[x], Len(cItems[x])) : x \in Below(Lib0, o) }
+CtxL(L, d) == UNION { AllNames(L, x) : x \in Below(L, d) }
+CtxSafe(L, th, fs) ==
+  ~CtxOps(fs) \/ \A d \in Closure(L, th) :
+                   /\ ~L[d].cut
+                   /\ (L[d].org = "" \/ (Ctx0(L[d].org) \subseteq CtxL(L, d) /\ (CtxL(L, d) \ Ctx0(L[d].org)) \subseteq FreshNames(fs)))
 Installed(e) == { <<e.installed[k][1], e.installed[k][2]>> : k \in 1..Len(e.installed) }
 \* ---------------------------------------------------------------- verdict: <<failing clauses, examined?>>
 Verdict(e) ==
@@ -88,7 +104,7 @@ Verdict(e) ==
     ELSE IF Missing(L, n) THEN <<IF ok THEN {"MissingFileIsError"} ELSE {}, TRUE>>
     ELSE IF Cyclic(L, n) THEN <<IF ok THEN {"CycleIsError"} ELSE {}, TRUE>>
     ELSE IF ~ValidLimit(L[n].items, e.limit) THEN <<IF ok THEN {"MissingLimitIsError"} ELSE {}, TRUE>>
-    ELSE IF Clash(L, n, e.fs) THEN <<{}, FALSE>>
+    ELSE IF Clash(L, n, e.fs) \/ ~CtxSafe(L, n, e.fs) THEN <<{}, FALSE>>
     ELSE IF ~ok THEN (IF Sane(L) THEN <<{"LoadSucceeds"}, TRUE>> ELSE <<{}, FALSE>>)
     ELSE <<(IF Installed(e) = ExpectedNames(L, n, e.limit) THEN {} ELSE {"ReturnsExpected"})
            \cup (IF e.canon # "none" /\ e.digest # e.canon THEN {"SameAsFresh"} ELSE {}), TRUE>>
